@@ -22,6 +22,8 @@ LTYPES = {
     "Union[int,Q]": ["union", [["int"], Q]],
     "tuple[Q,int]": ["tuple", [Q, ["int"]]],
     "tuple[Q,Q]": ["tuple", [Q, Q]],
+    "Float[Float[?n],m]": ["narr", "m", "?n"],  # the '?' axis comes from the INNER annotation of a nested one
+    "Float[Float[*?v],m]": ["narr", "m", "*?v"],
     "PyTree[Q]": ["pytree", Q],
     "tuple[PyTree[Q],Q]": ["tuple", [["pytree", Q], Q]],
     "PyTree[Q,'S']": ["pytree", Q, "S"],
@@ -39,6 +41,10 @@ def leaf_for(lname, sizes):
     """Leaf value spec(s) for one leaf position; `sizes` is a tuple of array sizes that the
     leaf consumes (2 for tuple[Q,Q], else 1)."""
     A = lambda s: ["duck", [s]]
+    if lname == "Float[Float[?n],m]":
+        return ["duck", [4, sizes[0]]]
+    if lname == "Float[Float[*?v],m]":
+        return ["duck", [4, sizes[0], 2]]
     if lname == "*?v":
         return ["duck", [sizes[0], 2]]
     if lname == "?n m":
@@ -199,7 +205,7 @@ def _shard(job):
     for lname, outer, tier, lo, hi in job["work"]:
         seqs = list(sequences(lname, tier))[lo:hi]
         for seq in seqs:
-            if outer == "bare" and (any(s != "x" for s, _ in seq) or LTYPES[lname][0] not in ("arr", "pytree")):
+            if outer == "bare" and (any(s != "x" for s, _ in seq) or LTYPES[lname][0] not in ("arr", "pytree", "narr")):
                 continue  # plain isinstance cannot take tuple[...] / Union[...] hints
             for plain in PLAIN:
                 if plain is not None and plain > len(seq):
